@@ -25,6 +25,21 @@ Proof.
 Qed.
 Print Assumptions C03_cutoffs.
 
+(* the cutoff of the dealiasing mask in the source (BaseNonlinearFun.__init__, re-translated on every run by harness/translate/dealias.py:
+   floor(frac * ((N // 2 + 1) - 1)) - 1 with frac = p / q) IS the model's cutoff; the mask is the axis-separate low-pass mask (whose source is
+   tied by C04_code_layout_is_model_layout), so mode k is kept iff |k_c| <= dealias_K on every axis *)
+From EXV Require Import Gen.DealiasGen.
+Theorem C03_code_cutoff_is_model_cutoff : forall p q N k : Z, (0 < q)%Z ->
+  gen_dealias_cutoff p q N = dealias_K p q N
+  /\ gen_dealias_mask_axis_separate = true
+  /\ (dealias_keeps p q N k = true <-> (Z.abs k <= gen_dealias_cutoff p q N)%Z).
+Proof.
+  intros p q N k Hq.
+  assert (E : gen_dealias_cutoff p q N = dealias_K p q N) by (unfold gen_dealias_cutoff, dealias_K; replace (N / 2 + 1 - 1)%Z with (N / 2)%Z by lia; reflexivity).
+  splits; [exact E | reflexivity |]. rewrite E. apply dealias_keeps_iff. exact Hq.
+Qed.
+Print Assumptions C03_code_cutoff_is_model_cutoff.
+
 (* physical-space multiplication on an n-point grid IS the circular convolution of the spectra (per axis) *)
 Theorem C03_convolution_theorem : forall (F : FieldT) (n : nat) (w w' : F),
   (0 < n)%nat -> fpow w n = 1 -> (forall m, (0 < m < n)%nat -> fpow w m <> 1) -> w * w' = 1 ->
